@@ -19,7 +19,7 @@ import re
 import signal
 import warnings
 
-from sim import gen, genv
+from sim import corpus, gen, genv
 from sim.choices import Choices, EventLog
 from sim.framework import std_run_job
 
@@ -27,8 +27,9 @@ ID = "C11"
 LEVEL = "exploration"
 CASE_CAP = 150.0
 ASSUMPTIONS = [
-    "canonical HUGR = text envelope of the package with the numeric suffix of generated names ('<base>.<n>' and '%tmp<n>') renumbered by first occurrence; everything else is compared verbatim",
+    "canonical HUGR = text envelope of the package with the numbers of generated names ('<base>.<n>', '%tmp<n>', also inside embedded constant payloads such as static_pyarray.<n>, and 'DefId(id=<n>)' in the names of lowered modifier blocks) renumbered by first occurrence; everything else is compared verbatim",
     "a true fresh-session reference (sibling fork) is computed for the max_refs (6 quick / 10 thorough) (definition, op) pairs whose first use in the history comes latest; for the remaining pairs the first occurrence in the history is the reference, i.e. they are checked for self-consistency across the history",
+    "corpus workload: an item is a test function of /repo's tests/integration run with stand-in fixtures (validate = no-op; run_int_fn/run_nat_fn/run_float_fn_approx compile the entry point the conftest builds instead of emulating it; EmulatorBuilder.build ends the item); only the outcomes of the public API calls it makes are compared, never the test's own assertions",
     "'emulate' ops of the property's quantifier are replaced by compile (HUGR emitted by /repo cannot be executed in this sandbox)",
     "the worklist scheduler is pinned (lowest block index first) so that schedule-dependence, which C09/C10 decide, does not leak into this check",
     "/repo sources run on newer dependency versions through the 3-point compat shim (verif/compat)",
@@ -36,7 +37,7 @@ ASSUMPTIONS = [
 MANIFEST = {
     "level": LEVEL,
     "technique": "deterministic simulation: seeded check/compile histories with failing definitions injected, each op compared with a fresh-session reference computed in a sibling fork",
-    "text": "Seeded exploration of session histories (10-320 ops quick, up to 700 thorough, with immediate repeats and failing definitions injected from 25 mistake kinds incl. comptime bodies that raise and nested recursive functions whose own body fails) over generated definition pools of 1-3 modules sharing names. After every op the canonical HUGR / rendered diagnostic / escaping exception must equal the reference: a fresh session (sibling process forked before any check or compile) for the 6-10 (definition, op) pairs first used latest in the history, the first occurrence in the history for the others. A final round re-compiles definitions once faults stop. Sampling, not proof.",
+    "text": "Seeded exploration of session histories over two workloads. (1) Generated definition pools of 1-3 modules sharing names: 10-320 ops quick, up to 700 thorough, with immediate repeats and failing definitions injected from 25 mistake kinds incl. comptime bodies that raise and nested recursive functions whose own body fails. (2) The repository's own tests/integration functions (542 items) run in seeded orders with repeats, 8 histories back to back per session, every public API call they make compared with the same item run alone in a fresh session. After every op the canonical HUGR / rendered diagnostic / escaping exception must equal the reference: a fresh session (sibling process forked before any check or compile) for the 6-10 (definition, op) pairs first used latest in the history, the first occurrence in the history for the others. A final round re-compiles definitions once faults stop. Sampling, not proof.",
     "note": "Trusted: fork() as the fresh-session reference, the canonicaliser (renumbering of generated names only), the program generator as workload, the compat shim.",
     "design_ref": "DESIGN.md section 3 (C11)",
 }
@@ -53,22 +54,45 @@ def warm() -> None:
     import guppylang_internals.experimental as X
     X.EXPERIMENTAL_FEATURES_ENABLED = True   # capturing closures are part of the pool
     genv.warm_compile()
+    global _ITEMS
+    try:
+        _ITEMS = corpus.discover()       # imports the test modules once, compiles nothing
+    except Exception as e:  # noqa: BLE001
+        _ITEMS = {"items": [], "skipped": {f"discovery failed: {type(e).__name__}: {e}": 1}}
 
 
-def run_job(job: dict) -> dict:
-    return std_run_job(job, run_case, None)
+_ITEMS: dict = {"items": [], "skipped": {}}
 
 
 def plan(tier: str, seed: int) -> dict:
+    import tempfile
+    cache = tempfile.mkdtemp(prefix="verif-c11-refs-")
     if tier == "quick":
-        return {"n_cases": 400, "cases_per_job": 1, "budget_s": 90, "min_budget": 40, "slice": 16,
-                "params": {"min_ops": 10, "max_ops": 320, "max_stmts": 10, "max_refs": 6}}
-    return {"n_cases": 20000, "cases_per_job": 1, "budget_s": 1500, "min_budget": 200,
-            "params": {"min_ops": 10, "max_ops": 700, "max_stmts": 16, "max_refs": 10}}
+        return {"budget_s": 110, "min_budget": 40, "slice": 16, "scratch": cache, "phases": [
+            {"name": "generated", "n_cases": 400, "cases_per_job": 1,
+             "params": {"min_ops": 10, "max_ops": 320, "max_stmts": 10, "max_refs": 6}},
+            {"name": "corpus", "n_cases": 640, "cases_per_job": 8,
+             "params": {"mode": "corpus", "min_ops": 8, "max_ops": 40, "pool": 8,
+                        "subset": [seed, 120], "ref_cache": cache}}]}
+    return {"budget_s": 1500, "min_budget": 200, "scratch": cache, "phases": [
+        {"name": "generated", "n_cases": 20000, "cases_per_job": 1,
+         "params": {"min_ops": 10, "max_ops": 700, "max_stmts": 16, "max_refs": 10}},
+        {"name": "corpus", "n_cases": 40000, "cases_per_job": 8,
+         "params": {"mode": "corpus", "min_ops": 10, "max_ops": 80, "pool": 12,
+                    "ref_cache": cache}}]}
+
+
+def cleanup(plan: dict) -> None:
+    import shutil
+    shutil.rmtree(plan.get("scratch", ""), ignore_errors=True)
 
 
 # ------------------------------------------------------------------------ canonical form
 _NAME = re.compile(r'"((?:[^"\\]|\\.)*?)(\.|%tmp)(\d+)"')
+# the same inside JSON that is embedded in a string of the envelope (constant payloads such
+# as StaticArrayValue carry generated names like static_pyarray.<n>)
+_DEFID = re.compile(r"DefId\(id=\d+\)")
+_NAME_ESC = re.compile(r'\\"([A-Za-z_%][^"\\]*?)(\.|%tmp)(\d+)\\"')
 
 
 def canonical(text: str) -> str:
@@ -81,7 +105,28 @@ def canonical(text: str) -> str:
         idx = seen.setdefault(key, len(seen))
         return f'"{m.group(1)}{m.group(2)}#{idx}"'
 
-    return _NAME.sub(repl, text)
+    def repl_esc(m: re.Match) -> str:
+        key = m.group(1) + m.group(2) + m.group(3)
+        idx = seen.setdefault(key, len(seen))
+        return f'\\"{m.group(1)}{m.group(2)}#{idx}\\"'
+
+    def repl_defid(m: re.Match) -> str:
+        return f"DefId(id=#{seen.setdefault(m.group(0), len(seen))})"
+
+    # modifier blocks are lowered to functions named "__WithBlock__(DefId(id=<n>))"
+    return _DEFID.sub(repl_defid, _NAME.sub(repl, _NAME_ESC.sub(repl_esc, text)))
+
+
+def canon_pkg(r) -> str:
+    text = canonical(r.to_str())
+    # the text envelope anonymises private symbols; keep their names as well
+    names = []
+    for hugr in r.modules:
+        for _n, data in hugr.nodes():
+            nm = getattr(data.op, "f_name", None)
+            if nm is not None:
+                names.append(nm)
+    return text + "\n;; function names\n" + canonical("\n".join(f'"{n}"' for n in names))
 
 
 def do_op(defn, op: str) -> dict:
@@ -91,15 +136,7 @@ def do_op(defn, op: str) -> dict:
     r = o.pop("result", None)
     if o["kind"] == "ok" and r is not None:
         try:
-            text = canonical(r.to_str())
-            # the text envelope anonymises private symbols; keep their names as well
-            names = []
-            for hugr in r.modules:
-                for _n, data in hugr.nodes():
-                    nm = getattr(data.op, "f_name", None)
-                    if nm is not None:
-                        names.append(nm)
-            text += "\n;; function names\n" + canonical("\n".join(f'"{n}"' for n in names))
+            text = canon_pkg(r)
             o["sha"] = hashlib.sha256(text.encode()).hexdigest()[:24]
             o["_text"] = text
         except Exception as e:  # noqa: BLE001
@@ -156,7 +193,136 @@ def classify(ref: dict, got: dict) -> str:
 
 
 # -------------------------------------------------------------------------------- a case
+def corpus_plan(ch: Choices, params: dict) -> tuple[list[str], list[int], int]:
+    """(pool of corpus items, history as indices into it, number of immediate repeats)."""
+    items = _ITEMS["items"]
+    if not items:
+        raise RuntimeError(f"empty corpus: {_ITEMS['skipped']}")
+    n_pool = params.get("pool", 10)
+    sub = params.get("subset")
+    if sub:   # quick tier: a seeded subset, so that references are shared between histories
+        import random
+        items = sorted(random.Random(sub[0]).sample(items, min(sub[1], len(items))))
+    poolsel = [items[ch.draw(len(items), "item")] for _ in range(n_pool)]
+    # neighbours: items of the same test module share module-level definitions and the
+    # same std-library features
+    if ch.draw(2, "neighbours"):
+        base = items.index(poolsel[0])
+        poolsel[1:4] = items[base + 1:base + 4] or poolsel[1:4]
+    poolsel = list(dict.fromkeys(poolsel))
+    n_ops = ch.rng_int(params.get("min_ops", 8), params.get("max_ops", 40), "n_ops")
+    history, repeats = [], 0
+    for _ in range(n_ops):
+        pi = ch.draw(len(poolsel), "pick")
+        if history and ch.draw(4, "again") == 3:
+            pi = history[-1]
+            repeats += 1
+        history.append(pi)
+    return poolsel, history, repeats
+
+
+_REFS: dict[str, dict] = {}
+_REF_STATS = {"reference_forks": 0, "reference_cache_hits": 0}
+
+
+def ensure_refs(items: list[str], params: dict) -> None:
+    """Fresh-session references of corpus items.  Must be called while this child is still
+    pristine (nothing checked or compiled since the zygote): each reference is produced by
+    a sibling fork that runs only that item.  The reference of an item is the same for
+    every history of a run (all children descend from one zygote state), so it is shared
+    through the run's scratch directory."""
+    cache = params.get("ref_cache")
+    for it in dict.fromkeys(items):
+        if it in _REFS:
+            continue
+        path = os.path.join(cache, hashlib.sha256(it.encode()).hexdigest()[:20] + ".json") \
+            if cache and os.path.isdir(cache) else None
+        if path and os.path.exists(path):
+            _REFS[it] = json.load(open(path))
+            _REF_STATS["reference_cache_hits"] += 1
+            continue
+        ref = reference_fork(lambda it=it: corpus.run_item(it, canon_pkg))
+        _REF_STATS["reference_forks"] += 1
+        if ref.get("kind") == "harness":
+            raise RuntimeError(f"reference fork failed: {ref}")
+        _REFS[it] = ref
+        if path:
+            tmp = f"{path}.{os.getpid()}.tmp"
+            json.dump(ref, open(tmp, "w"))
+            os.replace(tmp, path)
+
+
+def run_job(job: dict) -> dict:
+    params = job.get("params", {})
+    if params.get("mode") == "corpus":
+        # references first, while this child is pristine; then the histories of the batch
+        # run one after the other in this session (a batch is one long history)
+        need: list[str] = []
+        plans = [Choices(seed=seed) for _, seed in job.get("cases", [])]
+        if job.get("mode") == "replay":
+            plans.append(Choices(replay=job["choices"]))
+        for c in plans:
+            poolsel, history, _ = corpus_plan(c, params)
+            need += [poolsel[pi] for pi in history]
+        ensure_refs(need, params)
+    return std_run_job(job, run_case, None)
+
+
+def run_case_corpus(ch: Choices, params: dict) -> dict:
+    """History = a seeded sequence of test functions of /repo's tests/integration (each
+    defines, checks and compiles its own programs); reference = the same test function run
+    alone in a sibling fork of the pristine session."""
+    log = EventLog()
+    viol: list[dict] = []
+    probes = {"corpus_items_run": 0, "corpus_api_calls_compared": 0, "corpus_failing_api_calls": 0,
+              "corpus_immediate_repeats": 0, "reference_forks": 0, "reference_cache_hits": 0}
+    poolsel, history, probes["corpus_immediate_repeats"] = corpus_plan(ch, params)
+    for k in _REF_STATS:        # forks / cache hits since the last case of this child
+        probes[k], _REF_STATS[k] = _REF_STATS[k], 0
+    refs = {pi: _REFS[poolsel[pi]] for pi in set(history)}
+    rendered = []
+    steps = 0
+    for pi in history:
+        steps += 1
+        it = poolsel[pi]
+        got = corpus.run_item(it, canon_pkg)
+        ref = refs[pi]
+        probes["corpus_items_run"] += 1
+        probes["corpus_api_calls_compared"] += len(got["obs"])
+        probes["corpus_failing_api_calls"] += sum(1 for o in got["obs"] if " -> ok:" not in o)
+        short_id = it.replace("tests.integration.", "")
+        rendered.append(short_id)
+        log.add(short_id, hashlib.sha256("\n".join(got["obs"] + [got["end"]]).encode()).hexdigest()[:12])
+        if got["obs"] != ref["obs"] or got["end"] != ref["end"]:
+            k = next((i for i, (a, b) in enumerate(zip(ref["obs"], got["obs"])) if a != b),
+                     min(len(ref["obs"]), len(got["obs"])))
+            a = ref["obs"][k] if k < len(ref["obs"]) else "<no call> end=" + ref["end"]
+            b = got["obs"][k] if k < len(got["obs"]) else "<no call> end=" + got["end"]
+
+            def kind(o: str) -> str:
+                o = o.split(" -> ", 1)[-1]
+                return "ok" if o.startswith("ok:") else "guppy_error" if o.startswith("guppy_error") \
+                    else "exception"
+            cls = classify({"kind": kind(a)}, {"kind": kind(b)})
+            viol.append({"cls": f"C11/{cls}", "sig": {"corpus_item": short_id, "call": k},
+                         "expected": a[:1500], "observed": b[:1500],
+                         "detail": {"step": steps, "item": it, "history_before": rendered[:-1][-15:]}})
+            if len(viol) >= 3:
+                break
+    shape = hashlib.sha256(repr((poolsel, history)).encode()).hexdigest()[:16]
+    res = {"violations": viol, "digest": log.digest(), "steps": steps, "faults": {},
+           "probes": probes, "keys": [shape],
+           "nontrivial_keys": [shape] if len(set(history)) >= 3 else [],
+           "extra": {"corpus_histories": 1},
+           "trace": {"corpus_pool": poolsel, "history": rendered}}
+    if viol or ch.record[0] % 16 == 0:
+        res["sample"] = {"corpus_history": rendered[:20]}
+    return res
+
+
 def run_case(ch: Choices, params: dict) -> dict:
+    if params.get("mode") == "corpus":
+        return run_case_corpus(ch, params)
     log = EventLog()
     viol: list[dict] = []
     faults: dict[str, int] = {}
@@ -302,6 +468,9 @@ def coverage(agg, plan: dict) -> dict:
         "pool_definitions_total": agg.extra.get("pool_defs", 0),
         "rule": "one case = one generated pool (1-3 modules) + one seeded history (10-320 ops quick) run in a fresh fork; fresh-session references (sibling forks) for the max_refs most exposed (definition, op) pairs, first occurrence as reference for the rest; every op of the history is one comparison (see simulated_time.steps and the probes ops_vs_fresh_reference / ops_vs_first_occurrence); distinct = sha256 of (module sources, history); non-trivial = >= 3 definitions in the pool and >= 3 successful ops compared",
         "ops_compared": agg.steps,
+        "histories_generated_pools": agg.extra.get("cases_phase_generated", 0),
+        "histories_repository_corpus": agg.extra.get("cases_phase_corpus", 0),
+        "corpus": "second workload: histories over the test functions of /repo's tests/integration (542 items: each defines, checks and compiles its own programs - std library incl. option/either/collections, generics, structs, comptime, modifiers, tensors, pytket loading ...), 8 histories per child run back to back as one long session; every public API call (check/compile/compile_function/compile_entrypoint) an item makes is compared with the same call of the item run alone in a sibling fork of the pristine session; stand-ins: validate = no-op, run_int_fn & co compile the conftest's entry point instead of emulating, EmulatorBuilder.build ends the item",
         "components_real": ["engine.py CompilationEngine / DefinitionStore", "decorators", "checker", "compiler", "tracing"],
         "components_stub": ["'emulate' replaced by compile", "compat shim (3 patch points)",
                             "worklist order pinned through the guarded hook"],
